@@ -21,7 +21,7 @@ func runC08Hijack(run *Run, seed int64, reclaim time.Duration, carrier string) (
 	fail := func(key, f string, a ...any) {
 		out = append(out, &c01Result{"C08/" + key, fmt.Sprintf(f, a...)})
 	}
-	rig, x, _, err := newC01Rig(seed, c01Cfg{Reclaim: reclaim})
+	rig, x, _, err := newC01Rig(seed, c01Cfg{Reclaim: reclaim, Embed: seed%2 == 1})
 	if err != nil {
 		fail("harness/create", "%v", err)
 		return
